@@ -14,3 +14,14 @@ Definition run_print (z : Z) : str := print_int z.
 Definition opt_str (o : option str) : Z * str := match o with Some s => (1, s) | None => (0, []) end.
 Definition run_hex_to_b64 (s : str) : Z * str := opt_str (option_map enc64 (if lex_hex s then dec_hex s else None)).
 Definition run_b64_to_hex (s : str) : Z * str := opt_str (option_map enc_hex (dec64 s)).
+
+(* ---- lexical spaces of the date / time / duration types (DateLex.v) ---- *)
+From EP Require Import C10.DateLex.
+(* kind: 0 date | 1 dateTime | 2 time | 3 gYear | 4 gYearMonth | 5 gMonth | 6 gDay | 7 gMonthDay | 8 duration |
+   9 dayTimeDuration | 10 yearMonthDuration; [] = outside the lexical space, 1 :: fields otherwise *)
+Definition run_datelex (kind : Z) (v11 : bool) (s : list Z) : list Z :=
+  match kind with
+  | 0 => lex_date v11 s | 1 => lex_dateTime v11 s | 2 => lex_time s | 3 => lex_gYear v11 s | 4 => lex_gYearMonth v11 s
+  | 5 => lex_gMonth s | 6 => lex_gDay s | 7 => lex_gMonthDay s | 8 => lex_duration 0 s | 9 => lex_duration 1 s
+  | _ => lex_duration 2 s
+  end.
